@@ -36,6 +36,23 @@ H('k1_errorkind_round_trip', 'wire_tables', ['tarpc/src/util/serde.rs::serialize
   'deserialize(serialize(k)) == k on the 18 portable kinds and Other elsewhere')
 
 
+# ---- K3 time arithmetic (C05, C06, C07, C16)
+CLK = ['std::time::Instant::now -> symbolic clock (verif_kani_support::fake_now)']
+H('k3_time_until_is_saturating_difference', 'time_until', ['tarpc/src/util.rs::<Instant as TimeUntil>::time_until'],
+  'time_until(d) == saturating (d - now), total for all instants (loop-free, full domain under A-clock)', stubs=CLK)
+H('k3_max_timer_delay_value', 'time_until', ['tarpc/src/util.rs::MAX_TIMER_DELAY'],
+  'the real clamp constant equals the value assumed by the Verus model and lies within the DelayQueue range; Duration::min clamps')
+# ---- K2 deadline codec (C07, C16)
+H('k2_deadline_written_as_remaining_time', 'deadline_codec', ['tarpc/src/context.rs::absolute_to_relative_time::serialize'],
+  'written Duration == saturating (deadline - now)', stubs=CLK)
+H('k2_deadline_decode_total_and_shifted', 'deadline_codec', ['tarpc/src/context.rs::absolute_to_relative_time::deserialize'],
+  'decoding any (secs, nanos) never panics; result >= now; == now + duration when representable', stubs=CLK)
+H('k2_deadline_shift_law', 'deadline_codec', ['tarpc/src/context.rs::absolute_to_relative_time::serialize', 'tarpc/src/context.rs::absolute_to_relative_time::deserialize'],
+  "D' >= D; D' - D == transit when D >= now1; D' == now2 when D already passed", stubs=CLK)
+H('k2_default_deadline_ten_seconds', 'deadline_codec', ['tarpc/src/context.rs::ten_seconds_from_now'],
+  'default deadline == now + 10 s', stubs=CLK)
+
+
 def _tree_hash():
     h = hashlib.sha256()
     roots = [os.path.join(REPO, 'tarpc', 'src'), os.path.join(REPO, 'plugins', 'src'), os.path.join(VERIF, 'kani')]
